@@ -433,6 +433,10 @@ impl BitVectorTrait for BitVector<'_> {
         if x == 0 {
             return Some(0);
         }
+        if x > self.length {
+            // There cannot be more set bits than bits.
+            return None;
+        }
         if self.root.levels == 0 {
             None
         } else {
